@@ -335,7 +335,7 @@ pub fn run(ctx: &Ctx) -> Result<Ev, String> {
     }
     total.class_n("deterministic-boundary-cases", det.len() as u64);
     let shards = 32usize;
-    let per = (if ctx.thorough { 600_000 } else { 30_000 } / shards) as u32;
+    let per = (if ctx.thorough { 1_500_000 } else { 120_000 } / shards) as u32;
     let seed = ctx.seed;
     let ev = par::run_shards("C03", shards, |s| par::prop_shard("C03", seed, s, per, &rel_case(), |c, ev| test(c, ev, &opts)));
     total.merge(ev);
